@@ -92,12 +92,22 @@ def main():
         scen = bc.optional(info).get(cn, {}).get('scenarios')
         if scen: jobs += [det_job(info, cn, nmax, i) for i in range(len(scen))]
         else: jobs.append(det_job(info, cn, nmax))
-    if not only: jobs.append(skipp_job(info))
+    if not only:
+        jobs.append(skipp_job(info))
+        # the rest of the file: every byte of the 144-byte header and of the container header is a function of member values
+        # (C04 layout obligations), and the container cut depends on byte counts only (C04 obligations of
+        # uncompressedFile2CompressedFile: one read of exactly the container size, payload = what the stream delivered)
+        from checks import c04, file_common
+        jobs += [core.borrow(c04.stats_job(info), 'C04', 'C14'), core.borrow(c04.container_write_job(info), 'C04', 'C14')]
+        for j in file_common.select(file_common.all_jobs(info), 'C04'):
+            if 'uncompressedFile2CompressedFile' in j.name and 'called_from_close' not in j.name:
+                j.name = j.name.replace('FILE_', 'C04_File_')
+                jobs.append(core.borrow(j, 'C04', 'C14'))
     rep = core.Report('C14')
     rep.assumptions = ['zlib is deterministic (assumed contract); schedule independence is C07 (not applicable to this technique)',
                        'uninitialised storage is modelled as nondeterministic content, over-approximating every poison pattern',
                        'container-cut determinism is carried by C15 (gcount == min(n, fileSize - tellg)) and C04']
-    results = core.run_jobs(jobs)
+    results = core.keep_property(core.run_jobs(jobs), 'C14')
     rep.add_results(results)
     core.triage(rep, results, info)
     rep.validate_translation(info)
